@@ -119,8 +119,12 @@ pub fn check(c: &Case) -> Outcome {
         // a terminal event located exactly on the previous step end (|g| <= root tolerance there;
         // C09: "an exact zero at an endpoint may be reported from either adjacent step") repeats
         // that sample as the final entry: same time, same state
-        if k + 2 == m && sol.status == Status::UserInterrupt && w[1] == w[0] && bits_eq(&sol.y[k], &sol.y[k + 1]) {
-            dup_ok = true;
+        // (the state is the previous one up to the rounding of the interpolant evaluated at that time)
+        if k + 2 == m && sol.status == Status::UserInterrupt && w[1] == w[0] {
+            let close = sol.y[k].iter().zip(&sol.y[k + 1]).all(|(a, b)| (a - b).abs() <= 1e-10 * (1.0 + a.abs()));
+            if close {
+                dup_ok = true;
+            }
         }
         if !(strictly || dup_ok) {
             return Outcome::viol(format!("{}: sample times not strictly monotone in the direction of integration: {:e} then {:e} (d={})", desc, w[0], w[1], d));
